@@ -45,6 +45,8 @@ func init() {
 const (
 	retsmScanLimit = 1048576
 	retsmMaxLen    = 2200000
+	retsmMaxJunk   = 70000000
+	retsmMaxTotal  = 80000000
 	retsmGarbled   = 9999999
 )
 
@@ -136,7 +138,7 @@ func retsmParseFile(s string) (f retsmFile, ok bool) {
 			padSeen[pos] = true
 			f.items = append(f.items, retsmItem{'p', pos, l})
 		case 'j':
-			l, ok := retsmNat(b, retsmMaxLen+1)
+			l, ok := retsmNat(b, retsmMaxJunk+1)
 			if !ok || (l != 0 && l < 64) {
 				return f, false
 			}
@@ -152,6 +154,15 @@ func retsmParseFile(s string) (f retsmFile, ok bool) {
 		}
 	}
 	if len(f.items) > 40 {
+		return f, false
+	}
+	sum := 0
+	for _, it := range f.items {
+		if it.kind != 'd' {
+			sum += it.arg
+		}
+	}
+	if sum > retsmMaxTotal {
 		return f, false
 	}
 	return f, true
@@ -628,12 +639,14 @@ func execRetSm(line string) Result {
 //	  steps ::= rm:<victims> (mmeta.RemoveMetricsSegments) | pass (retention.DoRetentionBasedDeletion, 1 h: age class 0 is expired)
 //
 // Same file grammar; a line is json.Marshal of a MetricsMeta (MSegmentDir = key, DatapointCount = uid+1, the
-// padding is tag keys — what makes a real line long).  Both ReadMetricsMeta and removeMetricsSegmentsByList use a
-// default bufio.Scanner (64 KiB).  PropFail: after `rm` the reader must find exactly the entries not removed; after
+// padding is tag keys — what makes a real line long).  Both ReadMetricsMeta and removeMetricsSegmentsByList scan with
+// a 64 MiB limit (before the repair: a default bufio.Scanner, 64 KiB; failures on files with a line of ≥ 64 KiB carry
+// the class `/line-over-64KiB` in their sig; files with a line of ≥ 64 MiB are not judged).  PropFail: after `rm` the reader must find exactly the entries not removed; after
 // `pass` exactly the entries that are not expired.  An empty metricmeta.json and a missing one are the same
 // (ReadMetricsMeta opens with O_CREATE).
 
-const retmmScanLimit = 65536
+const retmmScanLimit = 64 * 1024 * 1024 // maxMetaLineBytes (before the repair: 65536, bufio.MaxScanTokenSize)
+const retmmScanLimitOld = 65536
 
 // retmmTagKeys: a tag-key set whose JSON adds exactly `extra` bytes to `{}` (extra = 0 or ≥ 8)
 func retmmTagKeys(extra int) map[string]bool {
@@ -800,11 +813,13 @@ func execRetMm(fl []string) Result {
 		total = buf.Len()
 		must(os.WriteFile(mfile, buf.Bytes(), 0o644))
 	}
+	// a line of ≥ 64 KiB is the class that was broken before the repair (default scanner): named in the witness class
 	cls := ""
-	if maxLine >= retmmScanLimit {
+	if maxLine >= retmmScanLimitOld {
 		cls = "/line-over-64KiB"
 	}
-	judged := true
+	// a line of ≥ 64 MiB (millions of tag keys in one segment): model correspondence only
+	judged := maxLine < retmmScanLimit
 	removedSome, keptSome := false, false
 	for j, st := range steps {
 		var want []retsmLine
@@ -986,6 +1001,8 @@ func execRetMm(fl []string) Result {
 	}
 	res.Tags = []string{"mm", sz}
 	if maxLine >= retmmScanLimit {
+		res.Tags = append(res.Tags, "mm-line>=64MiB")
+	} else if maxLine >= retmmScanLimitOld {
 		res.Tags = append(res.Tags, "mm-line>=64KiB")
 	} else if maxLine >= 60000 {
 		res.Tags = append(res.Tags, "mm-line-60000..65535")
@@ -1249,8 +1266,12 @@ func genRetSm(r *rand.Rand, n int, tier string) []string {
 		"mm 6:2:0:- pass",
 		"mm 6:2:0:- rm:k1+k4/pass",
 		"mm 6:2:0:3p65535 rm:k1/pass",    // the longest line the default scanner delivers
-		"mm 6:2:0:3p65536 pass",          // one byte more: ReadMetricsMeta fails, the pass deletes nothing
-		"mm 6:2:0:3p65536 rm:k1",         // … and the rewrite drops entries 3, 4, 5
+		"mm 6:2:0:3p65536 pass",          // one byte more: before the repair ReadMetricsMeta failed and the pass deleted nothing
+		"mm 6:2:0:3p65536 rm:k1",         // … and the rewrite dropped entries 3, 4, 5
+		"mm 6:2:0:1p65536 rm:k4",         // … or did not reach the victim
+		"mm 5:2:0:4p2100000 rm:m2.1/pass", // some 90000 tag keys
+		"mm 4:2:0:2j67108863 rm:k0/pass", // the longest line the scanner delivers now (a junk line: skipped)
+		"mm 4:2:0:2j67108864 rm:k0/pass", // one byte more: read error, nothing is touched
 		"mm 300:2:40:- rm:m2.0/rm:r0.10", // some hundred metrics segments
 	}
 	bad := []string{"sm", "sm 5:2:0:-", "sm 5:0:0:- rm:k1:-", "sm 5:2:0:9p2000 rm:k1:-", "sm 5:2:0:1p100 rm:k1:-", "sm 5:2:0:1p2000,1p3000 rm:k1:-",
